@@ -1,5 +1,97 @@
-import TransportVerif.Model.Ring
-import TransportVerif.Spec.Ring
+import TransportVerif.Link.Ring
+import TransportVerif.Proofs.Ring
+import TransportVerif.Props.C06
+/-
+C07 — limits and occupancy are exact.  The statements below are FIXED; only the proofs may change.
+-/
 namespace TV.Props.C07
-theorem placeholder : True := trivial
+open TV TV.Ring TV.RingLink
+
+/-- In every reachable state the growth loop succeeds whenever the limit test of `Write` lets the
+    packet through: "every packet that fits is accepted" (the loop's termination is part of the
+    definition of `growUntil`, see Model/Ring.lean). -/
+theorem growUntil_succeeds (r : Ring.Ring) (hr : Reachable r) (n : Nat)
+    (hn : n < Ring.maxPacket) (hl : r.overLimit n = false) : (r.growUntil n).2 = true := by
+  -- `hn` is not needed: the growth loop succeeds for any length that passes the limit test
+  have _ := hn
+  obtain ⟨f, hi⟩ := Proofs.Ring.reachable_inv r hr
+  exact Proofs.Ring.growUntil_true r n hi.geo hl
+
+/-- A Write is refused with buffer-full exactly when accepting it would exceed the count limit,
+    the size limit, or (no size limit, or hard-limit build) the 4 MiB cap — stated on the model's
+    own `count` and `size`, which by `ring_refines_fifo` are the number of unread packets and the sum of
+    their lengths plus two each. -/
+theorem write_full_iff (r : Ring.Ring) (hr : Reachable r) (p : List UInt8) :
+    (r.write p).2 = .full ↔
+      (p.length < Ring.maxPacket ∧ r.closed = false ∧
+        ((r.limitCount > 0 ∧ (r.count : Int) ≥ r.limitCount) ∨
+         (r.limitSize > 0 ∧ ((r.size + 2 + p.length : Nat) : Int) > r.limitSize) ∨
+         ((r.limitSize ≤ 0 ∨ r.hard = true) ∧ r.size + 2 + p.length ≥ Ring.maxSize))) := by
+  obtain ⟨f, hi⟩ := Proofs.Ring.reachable_inv r hr
+  have hov : r.overLimit p.length = true ↔
+      ((r.limitCount > 0 ∧ (r.count : Int) ≥ r.limitCount) ∨
+       (r.limitSize > 0 ∧ ((r.size + 2 + p.length : Nat) : Int) > r.limitSize) ∨
+       ((r.limitSize ≤ 0 ∨ r.hard = true) ∧ r.size + 2 + p.length ≥ Ring.maxSize)) := by
+    unfold Ring.overLimit
+    simp only [Bool.or_eq_true, Bool.and_eq_true, decide_eq_true_eq, or_assoc]
+  rw [← hov]
+  unfold Ring.write
+  by_cases h1 : p.length ≥ Ring.maxPacket
+  · rw [if_pos h1]
+    constructor
+    · intro h; simp at h
+    · intro h; omega
+  · rw [if_neg h1]
+    by_cases h2 : r.closed = true
+    · rw [if_pos h2]
+      constructor
+      · intro h; simp at h
+      · intro h; rw [h2] at h; simp at h
+    · rw [if_neg h2]
+      by_cases h3 : r.overLimit p.length = true
+      · rw [if_pos h3]
+        exact ⟨fun _ => ⟨by omega, by simpa using h2, h3⟩, fun _ => rfl⟩
+      · rw [if_neg h3]
+        have hgt := Proofs.Ring.growUntil_true r p.length hi.geo (by simpa using h3)
+        rcases hgu : r.growUntil p.length with ⟨g, b⟩
+        rw [hgu] at hgt
+        simp only at hgt
+        subst hgt
+        simp only []
+        constructor
+        · intro h; simp at h
+        · intro h; exact absurd h.2.2 h3
+
+/-- A refused Write (any reason) leaves the whole ring state unchanged in every reachable state. -/
+theorem refused_write_is_noop (r : Ring.Ring) (hr : Reachable r) (p : List UInt8)
+    (h : ∀ n, (r.write p).2 ≠ .ok n) : (r.write p).1 = r := by
+  obtain ⟨f, hi⟩ := Proofs.Ring.reachable_inv r hr
+  unfold Ring.write at h ⊢
+  by_cases h1 : p.length ≥ Ring.maxPacket
+  · rw [if_pos h1]
+  · rw [if_neg h1] at h ⊢
+    by_cases h2 : r.closed = true
+    · rw [if_pos h2]
+    · rw [if_neg h2] at h ⊢
+      by_cases h3 : r.overLimit p.length = true
+      · rw [if_pos h3]
+      · rw [if_neg h3] at h ⊢
+        have hgt := Proofs.Ring.growUntil_true r p.length hi.geo (by simpa using h3)
+        rcases hgu : r.growUntil p.length with ⟨g, b⟩
+        rw [hgu] at hgt h
+        simp only at hgt
+        subst hgt
+        exact absurd rfl (h p.length)
+
+/-- Count and Size of the model equal the spec's along every history (corollary of the main theorem,
+    stated separately because it is C07's first sentence). -/
+theorem count_size_exact (hard : Bool) (ops : List Ring.Op) :
+    (obsModel (Ring.new hard) ops).map (fun o => (o.count, o.size)) =
+    (obsSpec hard RingSpec.Fifo.new ops).map (fun o => (o.count, o.size)) := by
+  rw [C06.ring_refines_fifo]
+
+-- non-vacuity: reachable states exist (the new buffer, and anything after it)
+example : Reachable (Ring.new false) := ⟨false, [], rfl⟩
+example : Reachable (runModel (Ring.new true) [.limitSize 7, .write [1, 2, 3, 4, 5]]) := ⟨true, _, rfl⟩
+
 end TV.Props.C07
